@@ -259,6 +259,12 @@ class C16(Check):
         self.A, self.U = A, U
         self.stats = {}
         self.variant = self.detect_variant()
+        self.findings = common.Findings()
+        def _probe(f):
+            try: return f()
+            except BaseException: return "raised"
+        # behaviour probe for the candidate finding family `foreign-compare:*` (fixes/C16_compare_foreign.diff removes it)
+        self.quirk_foreign_compare = (_probe(lambda: A.EthAddr(b"\0" * 6) == None) is True or _probe(lambda: A.EthAddr(b"\1" * 6) == A.IPAddr("1.2.3.4")) == "raised")
         if getattr(A, "_inet_aton", None) is not None:
             self.anchors = list(self.anchors) + [("pox/lib/addresses.py", "_inet_aton")]
 
@@ -343,6 +349,17 @@ class C16(Check):
         # variant): the correspondence and the oracle decide; the evidence records that the shape was not the known one
         self.variant_inexact = list(getattr(self, "variant_inexact", [])) + inexact
         return out
+
+    CANDIDATE_KEYS = ("foreign-compare:none:equal", "foreign-compare:none:ordered", "foreign-compare:cross-class:recursion",
+                      "foreign-compare:cross-class:equal", "foreign-compare:cross-class:ordered")
+    def gated(self, key):
+        """A candidate finding whose behaviour is present on this tree (probed in setup) and which is not registered in known_findings.json
+        yet is counted in the evidence instead of failing the check; once it is registered it is reported as a KNOWN-FINDING, and on a tree
+        where the probe says the behaviour is gone every case is enforced."""
+        if key not in self.CANDIDATE_KEYS or not self.quirk_foreign_compare: return False
+        if self.findings.match(self.id, key): return False
+        self.stats["candidate:" + key] = self.stats.get("candidate:" + key, 0) + 1
+        return True
 
     def extra_evidence(self):
         return {"op_histogram": dict(sorted(self.stats.items())), "code_variant": self.variant, "code_variant_inexact_shapes": self.variant_inexact}
@@ -547,6 +564,10 @@ class C16(Check):
                 c.append({"op": "ip6_parse_cidr", "t": u, "allow_host": False})
                 c.append({"op": "ip6_innet_text", "a": "fe80" + "00" * 13 + "01", "net": u})
         for u in uni_variants("24") + uni_variants("255.255.0.0"): c.append({"op": "ip4_getnet", "a": self.r4(0xc0a80a5a), "arg": u})
+        # --- comparisons with None, other address classes, and things that do / do not denote the same address
+        for raw in ("00000000", "ffffffff", "01020304", "80000000"): c.append({"op": "cmpx", "k": "ip4", "raw": raw})
+        for raw in ("00" * 16, "ff" * 16, "20010db8000000000000000000000001", "00" * 10 + "ffff01020304"): c.append({"op": "cmpx", "k": "ip6", "raw": raw})
+        for raw in ("000000000000", "ffffffffffff", "0123456789ab"): c.append({"op": "cmpx", "k": "eth", "raw": raw})
         # --- every accepted argument type of every constructor (value semantics, hashing, type of raw)
         for raw in ("00000000", "7f000001", "ff0000fe", "80000000", "c0a80a5a"): c.append({"op": "ctor", "k": "ip4", "raw": raw})
         for raw in ("00" * 16, "20010db8000000000000000000000001", "00" * 10 + "ffff01020304", "ff" * 16, "fe80" + "00" * 13 + "01"): c.append({"op": "ctor", "k": "ip6", "raw": raw})
@@ -723,6 +744,10 @@ class C16(Check):
             kind = (rng.choice(["list", "tuple", "bytearray"]) if len(vals) != 6 else rng.choice(["list", "tuple", "bytearray", "memoryview", "array", "bytes"])) \
                 if all(0 <= v < 256 for v in vals) else rng.choice(["list", "tuple"])
             yield {"op": "eth_seq", "kind": kind, "vals": vals}
+        for _ in range(R(60, 1000)):
+            k = rng.choice(["ip4", "ip6", "eth"]); nb = {"ip4": 4, "ip6": 16, "eth": 6}[k]
+            raw = rng.choice([rng.getrandbits(8 * nb).to_bytes(nb, "big"), b"\0" * nb, b"\xff" * nb, (b"\0" * 10 + b"\xff\xff" + rng.getrandbits(32).to_bytes(4, "big"))[:nb] if k == "ip6" else b"\0" * nb])
+            yield {"op": "cmpx", "k": k, "raw": raw.hex()}
         for _ in range(R(120, 2500)):
             k = rng.choice(["ip4", "ip6", "eth"]); nb = {"ip4": 4, "ip6": 16, "eth": 6}[k]
             yield {"op": "ctor", "k": k, "raw": (self.rand6(rng) if k == "ip6" and rng.random() < 0.5 else rng.getrandbits(8 * nb).to_bytes(nb, "big")).hex()}
@@ -974,6 +999,48 @@ class C16(Check):
                     if bad: problems.append("%s:follows-its-source:%s" % (tag, bad[0]))
         return problems
 
+    # ---- comparison with None, with the other address classes and with ints / bytes / str / sequences that do or do not denote
+    #      the same address.  Reading of the property: an address equals only what denotes the same address of the same family;
+    #      None denotes none; ordering against something that is not such an address is a TypeError, never an answer.
+    def _cmpx(self, case):
+        A = self.A
+        k, raw = case["k"], bytes.fromhex(case["raw"])
+        mk = {"ip4": lambda r: A.IPAddr(r), "ip6": lambda r: A.IPAddr6(r, raw=True), "eth": lambda r: A.EthAddr(r)}
+        x = mk[k](raw)
+        def t(f):
+            try: return f()
+            except RecursionError: return "RecursionError"
+            except Exception as e: return type(e).__name__
+        def obs(o): return [t(lambda: x == o), t(lambda: x != o), t(lambda: x < o), t(lambda: x >= o), t(lambda: o == x), t(lambda: o != x)]
+        problems = []
+        NOT_AN_ADDRESS = [False, True, "TypeError", "TypeError", False, True]
+        foreign = [("none", None), ("object", object()), ("float", 1.5), ("junk-str", "no such address"), ("empty-str", ""), ("empty-bytes", b""), ("empty-list", [])]
+        zero = {"ip4": 4, "ip6": 16, "eth": 6}
+        for ok_, n in zero.items():
+            if ok_ != k:
+                foreign.append(("cross-class:%s-zero" % ok_, mk[ok_](b"\0" * n)))
+                foreign.append(("cross-class:%s-ones" % ok_, mk[ok_](b"\xff" * n)))
+        if k == "ip4": foreign.append(("cross-class:ip6-mapped", A.IPAddr6(b"\0" * 10 + b"\xff\xff" + raw, raw=True)))
+        if k == "ip6" and raw[:12] == b"\0" * 10 + b"\xff\xff": foreign.append(("cross-class:ip4-of-mapped", A.IPAddr(raw[12:])))
+        for name, o in foreign:
+            got = obs(o)
+            if got != NOT_AN_ADDRESS:
+                aspect = "recursion" if "RecursionError" in got else "equal" if got[0] is True or got[4] is True else "ordered" if got[2] in (True, False) else "other"
+                problems.append("%s:%s:%s" % (name.split(":")[0], aspect, name))
+        # things that denote an address of the same class: the answer is the one for that address
+        text = {"ip4": lambda r: ".".join(map(str, r)), "ip6": rfc5952, "eth": lambda r: ":".join("%02x" % b for b in r)}[k]
+        others = [raw, bytes(b ^ (i == len(raw) - 1) for i, b in enumerate(raw)), b"\0" * len(raw), b"\xff" * len(raw)]
+        key = (lambda r: struct.unpack("<i", r)[0]) if k == "ip4" else (lambda r: r)
+        for r2 in others:
+            forms = [("text", text(r2))]
+            if k == "ip4": forms += [("int", rt(int.from_bytes(r2, "big"))), ("bytes", r2)]
+            if k == "eth": forms += [("bytes", r2), ("list", list(r2)), ("tuple", tuple(r2))]
+            for fname, o in forms:
+                got = obs(o)[:4]
+                want = [raw == r2, raw != r2, key(raw) < key(r2), not key(raw) < key(r2)]
+                if got != want: problems.append("denoting:%s:%s" % (fname, "eq" if got[:2] != want[:2] else "order"))
+        return problems
+
     # ---- sequences of method calls on the SAME objects (hidden per-instance / per-class state, HARDENING items 1-2)
     def _mk_obj(self, o):
         A = self.A
@@ -1148,6 +1215,8 @@ class C16(Check):
                 return {"view": {"steps": self._run_objs(case)}}
             if op == "ctor":
                 return {"view": {}, "extra": {"problems": self._ctor(case)}}
+            if op == "cmpx":
+                return {"view": {}, "extra": {"problems": self._cmpx(case)}}
             if op == "calls":
                 # one Python process, one call after the other: no result may depend on what was called before
                 subs = [self.impl(c) for c in case["calls"]]
@@ -1159,7 +1228,7 @@ class C16(Check):
     # ------------------------------------------------------------------------- model side
     TEXT_KEYS = ("t", "net", "arg")
     def model_request(self, case):
-        if case["op"] in ("misc", "ctor"): return None
+        if case["op"] in ("misc", "ctor", "cmpx"): return None
         if case["op"] == "calls":
             subs = [self.model_request(c) for c in case["calls"]]
             return None if any(x is None for x in subs) else {"calls": subs}
@@ -1445,6 +1514,13 @@ class C16(Check):
         if op == "misc":
             bad = sorted(k for k, val in ex.items() if val is not True)
             return ("misc:" + bad[0]) if bad else None
+        if op == "cmpx":
+            if rejected: return "cmpx: harness-level exception %s" % v["exc"]
+            for pr in ex["problems"]:
+                key = "foreign-compare:" + pr.split(":")[0] + ":" + pr.split(":")[1]
+                if self.gated(key): continue
+                return key + " (" + pr + ")"
+            return None
         if op == "ctor":
             if rejected: return "ctor: harness-level exception %s" % v["exc"]
             return ("ctor:" + ex["problems"][0]) if ex["problems"] else None
@@ -1532,6 +1608,7 @@ class C16(Check):
     def finding_key(self, case, obs, failure):
         if re.match(r"(ip4|ip6|eth)-(text|cidr|mask|seq):", failure) or failure.startswith("immutable:"): return failure
         if case["op"] == "ctor": return failure
+        if case["op"] == "cmpx": return failure.split(" (")[0]
         if case["op"] == "calls" and failure.startswith("call "):
             return "calls:" + failure.split("): ", 1)[1].split(":")[0][:40]
         if failure.startswith("misc:"): return failure[5:] if failure.startswith(("misc:ip6-ctor:", "misc:mixed-eq:")) else failure
